@@ -1,4 +1,5 @@
 """C02 - exit status reflects the worst finding; incomplete audits never look clean."""
+import itertools
 import json
 import os
 import random
@@ -14,7 +15,7 @@ RULE = ('one case = one scripted peer audited under 7 option sets (colour, -n, -
         '(refused, silent, closed after banner, garbage, truncated KEXINIT, wrong first packet, bad block size), and policy audits (-P) of passing and failing peers.  Oracle: status == 3/2/0 by the '
         'worst finding level visible in the report (algorithm notes by tag, general/security lines by colour); broken handshakes: status not in {0,2,3} and no algorithm lines/lists; policy: status 0 <=> passed, 3 <=> failed.  '
         'A case is non-trivial when at least one option set produced a report/verdict that was compared with the status; distinct = distinct peer specifications')
-REQUIRED = {'empty_entry_after_findings': 5, 'single_failure_by_entry_shape': 6, 'banners_with_two_findings': 2, 'gss_only_failure': 4, 'empty_entry_before_failure': 4, 'broken_after_rated_banner': 9, 'builtin_policy_runs': 10, 'outdated_builtin_policy_runs': 4, 'status_checks': 200, 'expect3': 10, 'expect2': 5, 'expect0': 3, 'broken_handshakes': 10, 'policy_runs': 10}
+REQUIRED = {'client_audits': 8, 'empty_entry_after_findings': 5, 'single_failure_by_entry_shape': 6, 'banners_with_two_findings': 2, 'gss_only_failure': 4, 'empty_entry_before_failure': 4, 'broken_after_rated_banner': 9, 'builtin_policy_runs': 10, 'outdated_builtin_policy_runs': 4, 'status_checks': 200, 'expect3': 10, 'expect2': 5, 'expect0': 3, 'broken_handshakes': 10, 'policy_runs': 10}
 ASSUMPTIONS = ['findings are algorithm notes plus failure/warning coloured lines of the general and security sections; (nfo), (rec) and (fin) lines are presentation, not findings',
                'levels of untagged (gen)/(sec) lines are only observable in colour renderings; the expected status of all option sets of a peer is derived from its colour rendering']
 MANIFEST = {
@@ -56,6 +57,9 @@ def cases(tier, seed):
     # the only failure-rated name of the peer is one whose table entry has a given shape (number of slots, with / without a version history): whatever the shape, every rendering shows the failure the status reports
     for cat, shape in fail_shapes():
         cs.append({'kind': 'mix', 'seed': rng.randrange(1 << 30), 'mix': {c_: ['clean'] for c_ in ('kex', 'key', 'enc', 'mac')}, 'unknown': False, 'probes': False, 'fail_shape': [cat, list(shape)]})
+    # client audits, with the worst algorithm in one direction only / both / none
+    for i, (cat, level, which) in enumerate(itertools.product(['enc', 'mac'], ['fail', 'warn'], ['sc', 'cs', 'both']) if tier == 'thorough' else [('enc', 'fail', 'sc'), ('enc', 'fail', 'cs'), ('mac', 'fail', 'cs'), ('mac', 'warn', 'sc'), ('enc', 'warn', 'both'), ('mac', 'fail', 'both')]):
+        cs.append({'kind': 'client', 'seed': rng.randrange(1 << 30), 'cat': cat, 'level': level, 'which': which})
     for i, (cm, am) in enumerate([(0x48, 0x0c), (0x08, 0x04), (0x49, 0x0c), (0x48, 0x0e), (0x7f, 0x7e)]):
         cs.append({'kind': 'ssh1', 'cmask': cm, 'amask': am})
     for i in range(3 if tier == 'quick' else 12):
@@ -246,6 +250,43 @@ def run_mix(c):
     return viol, counters
 
 
+def run_client(c):
+    """Client audits (-c): the status follows the worst finding of the report of that same run, also for clients whose lists differ per direction (a failure-rated cipher or MAC in one direction only)."""
+    rng = random.Random(c['seed'])
+    cls = by_class(audit.db_names())
+    pick = lambda cat, klass: rng.choice([x for x in cls[cat][klass] if not x.startswith('gss-')])   # noqa: E731
+    k = audit.sym_kex([pick('kex', 'clean'), 'kex-strict-c-v00@openssh.com'], [pick('key', 'clean')], [pick('enc', 'clean')], [pick('mac', 'clean')])
+    cat = c['cat']
+    bad = pick(cat, c['level'])
+    if c['which'] in ('sc', 'both'):
+        k[cat + '_sc'] = k[cat + '_sc'] + [bad]
+    if c['which'] in ('cs', 'both'):
+        k[cat + '_cs'] = k[cat + '_cs'] + [bad]
+    viol, counters = [], {'client_audits': 0}
+    for name, args in (('plain', ['-n']), ('json', ['-j'])):
+        r, p = audit.audit_client({'banner': 'SSH-2.0-OpenSSH_9.%d' % rng.randint(0, 9), 'kex': k}, args)
+        if p.count('connected') == 0:
+            return None, {'why': 'client peer could not connect'}
+        if r.status not in (0, 2, 3):
+            viol.append(_v('C02/audit-failed:status%s:client' % r.status, 'audit of a well-formed client did not complete', out=(r.out + r.err)[-300:]))
+            continue
+        counters['client_audits'] += 1
+        counters['status_checks'] = counters.get('status_checks', 0) + 1
+        if name == 'json':
+            try:
+                doc = json.loads(r.out)
+            except ValueError:
+                viol.append(_v('C02/json-unparsable:client', 'stdout of -j is not one JSON document', out=r.out[:200]))
+                continue
+            levels = {lvl for (_c, _n, lvl, _t) in report.json_findings(doc) if lvl in ('fail', 'warn')}
+        else:
+            lv, extra, _rep = text_levels(r.out)
+            levels = lv | extra
+        if want_status(levels) != r.status:
+            viol.append(_v('C02/status-wrong:client:%s:got%s-want%s:%s-only-in-%s' % (name, r.status, want_status(levels), c['level'], c['which']), 'exit status of a client audit differs from the worst finding level of its own report', status=r.status, levels=sorted(levels), which=c['which'], name=bad))
+    return viol, counters
+
+
 def run_ssh1(c):
     script = {'banner': 'SSH-1.5-OpenSSH_1.2.3', 'proto': 1, 'ssh1': {'cmask': c['cmask'], 'amask': c['amask']}}
     viol, counters = [], {}
@@ -413,7 +454,7 @@ def run_builtin_policy(c):
 
 
 def run_case(c):
-    fn = {'builtin-policy': run_builtin_policy, 'mix': run_mix, 'ssh1': run_ssh1, 'ssh199': run_ssh199, 'nonascii-banner': run_nonascii, 'broken': run_broken, 'policy': run_policy}[c['kind']]
+    fn = {'client': run_client, 'builtin-policy': run_builtin_policy, 'mix': run_mix, 'ssh1': run_ssh1, 'ssh199': run_ssh199, 'nonascii-banner': run_nonascii, 'broken': run_broken, 'policy': run_policy}[c['kind']]
     viol, counters = fn(c)
     if viol is None:
         return {'verdict': 'inconclusive', 'why': counters.get('why')}
